@@ -43,6 +43,9 @@ mod absolute_to_relative_time {
     pub use serde::{Deserialize, Deserializer, Serialize, Serializer};
     pub use std::time::{Duration, Instant};
 
+    /// Stands in for deadlines that are too far away to be represented as an [`Instant`].
+    const FAR_FUTURE: Duration = Duration::from_secs(1000 * 365 * 24 * 60 * 60);
+
     pub fn serialize<S>(deadline: &Instant, serializer: S) -> Result<S::Ok, S::Error>
     where
         S: Serializer,
@@ -56,7 +59,13 @@ mod absolute_to_relative_time {
         D: Deserializer<'de>,
     {
         let deadline = Duration::deserialize(deserializer)?;
-        Ok(Instant::now() + deadline)
+        let now = Instant::now();
+        // The duration is chosen by the peer and may not fit in an Instant: saturate rather than
+        // panic on overflow.
+        Ok(now
+            .checked_add(deadline)
+            .or_else(|| now.checked_add(FAR_FUTURE))
+            .unwrap_or(now))
     }
 
     #[cfg(test)]
